@@ -54,6 +54,90 @@ func wktLits(text string) []string {
 	return out
 }
 
+// exactG is a geometry tree [t, l, body] whose ordinates are exact float64 values ("m:e", an integer, or "-0").
+type exactG struct {
+	T, L string
+	Body json.RawMessage
+}
+
+type xnum float64
+
+func (n *xnum) UnmarshalJSON(b []byte) error {
+	if string(b) == `"-0"` {
+		*n = xnum(math.Copysign(0, -1))
+		return nil
+	}
+	var v num
+	if err := v.UnmarshalJSON(b); err != nil {
+		return err
+	}
+	*n = xnum(v)
+	return nil
+}
+
+func xCoord(c []xnum, flat *[]float64) geom.Coord {
+	out := make(geom.Coord, len(c))
+	for i, v := range c {
+		out[i] = float64(v)
+	}
+	*flat = append(*flat, out...)
+	return out
+}
+
+func xCoords1(v [][]xnum, flat *[]float64) []geom.Coord {
+	out := make([]geom.Coord, len(v))
+	for i := range v {
+		out[i] = xCoord(v[i], flat)
+	}
+	return out
+}
+
+func xCoords2(v [][][]xnum, flat *[]float64) [][]geom.Coord {
+	out := make([][]geom.Coord, len(v))
+	for i := range v {
+		out[i] = xCoords1(v[i], flat)
+	}
+	return out
+}
+
+// buildExactGeom builds the geometry through the public constructors and appends its ordinates to flat in document order.
+func buildExactGeom(g exactG, flat *[]float64) geom.T {
+	l := layoutOf(g.L)
+	switch g.T {
+	case "PT":
+		return geom.NewPoint(l).MustSetCoords(xCoord(dec[[]xnum](g.Body), flat))
+	case "LS":
+		return geom.NewLineString(l).MustSetCoords(xCoords1(dec[[][]xnum](g.Body), flat))
+	case "PG":
+		return geom.NewPolygon(l).MustSetCoords(xCoords2(dec[[][][]xnum](g.Body), flat))
+	case "MPT":
+		return geom.NewMultiPoint(l).MustSetCoords(xCoords1(dec[[][]xnum](g.Body), flat))
+	case "MLS":
+		return geom.NewMultiLineString(l).MustSetCoords(xCoords2(dec[[][][]xnum](g.Body), flat))
+	case "MPG":
+		v := dec[[][][][]xnum](g.Body)
+		cs := make([][][]geom.Coord, len(v))
+		for i := range v {
+			cs[i] = xCoords2(v[i], flat)
+		}
+		return geom.NewMultiPolygon(l).MustSetCoords(cs)
+	case "GC":
+		gc := geom.NewGeometryCollection()
+		for _, m := range dec[[]exactG](g.Body) {
+			gc.MustPush(buildExactGeom(m, flat))
+		}
+		return gc
+	}
+	panic("harness: buildExactGeom " + g.T)
+}
+
+func strs(v []string) []string {
+	if v == nil {
+		return []string{}
+	}
+	return v
+}
+
 // case {kind:"wkt", g, ds}: structure of the WKT text for each digit limit;
 // case {kind:"geojson", g (GeoJSON model geometry), ds}: JSON tree for each limit, without and with a bounding box
 //
@@ -62,6 +146,10 @@ func wktLits(text string) []string {
 // case {kind:"nums", vals:[exact...], d}: every value written through both encoders (and the bbox) with limit d:
 //
 //	the literals as written, next to the exact input value.
+//
+// case {kind:"shapes", g (tree with exact ordinates), d}: every literal of the WKT text and of the GeoJSON document with
+//
+//	a bounding box (options in both orders), next to the exact ordinates.
 func digitsHandler(raw json.RawMessage) map[string]any {
 	var c struct {
 		Kind string
@@ -81,9 +169,20 @@ func digitsHandler(raw json.RawMessage) map[string]any {
 			o := map[string]any{"d": d, "ok": err == nil, "toks": []any{}}
 			if err == nil {
 				o["toks"] = tokenizeWKT(text)
-				if _, perr := wkt.Unmarshal(text); perr != nil && g.Layout() != geom.NoLayout {
-					o["reparse"] = perr.Error()
+				// "the output remains valid WKT": what the library's own parser makes of it
+				re := map[string]any{"ok": false, "err": "", "l": "-", "tree": map[string]any{"t": "-", "body": []int{}}}
+				if ev, msg := call(func() {
+					g2, perr := wkt.Unmarshal(text)
+					if perr != nil {
+						re["err"] = errStr(perr)
+						return
+					}
+					re["tree"], re["l"] = wktTree(g2, map[string]bool{}), layoutName(g2.Layout())
+					re["ok"] = true
+				}); ev != "ok" {
+					re["ok"], re["err"] = false, "panic: "+msg
 				}
+				o["re"] = re
 			}
 			outs = append(outs, o)
 		}
@@ -111,6 +210,45 @@ func digitsHandler(raw json.RawMessage) map[string]any {
 			}
 		}
 		out["outs"] = outs
+	case "shapes":
+		// a geometry whose ordinates are exact float64 values: every number literal of the WKT text and of the GeoJSON
+		// document (bounding box requested, the two options in either order), in document order, next to the exact
+		// ordinates in the order they were put in
+		var flat []float64
+		g := buildExactGeom(dec[exactG](c.G), &flat)
+		out["x"] = exactStrs(flat)
+		w := map[string]any{"err": "", "lits": []string{}}
+		if text, err := wkt.Marshal(g, wkt.EncodeOptionWithMaxDecimalDigits(c.D)); err != nil {
+			w["err"] = errStr(err)
+		} else {
+			w["lits"] = strs(wktLits(text))
+		}
+		out["wkt"] = w
+		gj := []any{}
+		for _, order := range []string{"BD", "DB"} {
+			opts := []geojson.EncodeGeometryOption{geojson.EncodeGeometryWithBBox(), geojson.EncodeGeometryWithMaxDecimalDigits(c.D)}
+			if order == "DB" {
+				opts[0], opts[1] = opts[1], opts[0]
+			}
+			o := map[string]any{"order": order, "err": "", "bbox": []string{}, "coords": []string{}}
+			b, err := geojson.Marshal(g, opts...)
+			var members map[string]json.RawMessage
+			if err == nil {
+				err = json.Unmarshal(b, &members)
+			}
+			if err != nil {
+				o["err"] = errStr(err)
+			} else {
+				o["bbox"] = strs(numLits(members["bbox"]))
+				if raw, ok := members["coordinates"]; ok {
+					o["coords"] = strs(numLits(raw))
+				} else {
+					o["coords"] = strs(numLits(members["geometries"]))
+				}
+			}
+			gj = append(gj, o)
+		}
+		out["gj"] = gj
 	case "nums":
 		rows := []any{}
 		for i, v := range c.Vals {
